@@ -106,7 +106,7 @@ def zipApply : List (Option Quant) → List Tensor → List Tensor
 inductive LKind
   | plain      -- qs = get_quantizers() (QBatchNormalization: its own pairing, `bnQs`), ws = get_weights(), set_weights(weights)
   | rnn        -- QSimpleRNN / QLSTM / QGRU: qs = get_quantizers()[:-1]
-  | bidir      -- QBidirectional: per direction get_quantizers()[:len(get_weights())], `bidirQs`
+  | bidir      -- QBidirectional: per direction ITS get_quantizers()[:len(ITS get_weights())], `bidirQs`
   | folded     -- QConv2DBatchnorm / QDepthwiseConv2DBatchnorm: ws = get_folded_weights(), not written back
   | noQuant    -- no `get_quantizers` attribute: untouched, no dictionary entry
   deriving Repr, DecidableEq, Inhabited
@@ -137,6 +137,10 @@ structure Layer where
   succ : List Nat                            -- graph successors (consumer layers; [sink] if none)
   allow : Bool                               -- class name in get_model_sparsity's default allow_list
   dirW : Nat := 0                            -- QBidirectional: len(forward_layer.get_weights()) (2 or 3)
+  dirWb : Nat := 0                           -- QBidirectional: len(backward_layer.get_weights()) (2 or 3; the
+                                             --   backward layer may be another class / have no bias)
+  dirQ : Nat := 0                            -- QBidirectional: len(forward_layer.get_quantizers()) — where the
+                                             --   backward layer's quantizers start in get_quantizers()
 
 /-- QBatchNormalization: `get_quantizers()` is always [gamma, beta, mean, variance, inverse] but
     `get_weights()` has no gamma when `scale=False` and no beta when `center=False`:
@@ -145,12 +149,14 @@ def bnQs (info : BNInfo) (qs : List (Option Quant)) : List (Option Quant) :=
   (if info.scale then qs.take 1 else []) ++ (if info.center then (qs.drop 1).take 1 else []) ++
     (qs.drop 2).take 2
 
-/-- QBidirectional: `get_quantizers()` = forward [kernel, recurrent, bias, state] ++ backward [...],
-    `get_weights()` = forward weights ++ backward weights (`nw` each):
-    `for rnn in [forward_layer, backward_layer]: qs += rnn.get_quantizers()[:len(rnn.get_weights())]`
-    (both directions list the same number of quantizers) -/
-def bidirQs (nw : Nat) (qs : List (Option Quant)) : List (Option Quant) :=
-  (qs.take (qs.length / 2)).take nw ++ (qs.drop (qs.length / 2)).take nw
+/-- QBidirectional: `get_quantizers()` = forward_layer.get_quantizers() ++ backward_layer.get_quantizers()
+    (`nq` forward ones: [kernel, recurrent, bias, state]), `get_weights()` = forward weights (`nwF`) ++
+    backward weights (`nwB`):
+    `for rnn in [forward_layer, backward_layer]: qs += rnn.get_quantizers()[:len(rnn.get_weights())]`.
+    Nothing is assumed symmetric: `backward_layer=` may be another cell class, with other quantizers,
+    with / without bias — each direction's OWN list, cut to that direction's OWN number of weights. -/
+def bidirQs (nwF nwB nq : Nat) (qs : List (Option Quant)) : List (Option Quant) :=
+  (qs.take nq).take nwF ++ (qs.drop nq).take nwB
 
 def defaultBN : BNInfo := { scale := true, center := true, eps := 0 }
 
@@ -158,7 +164,7 @@ def defaultBN : BNInfo := { scale := true, center := true, eps := 0 }
 def layerQs (l : Layer) : List (Option Quant) :=
   match l.kind with
   | .rnn => l.qs.dropLast
-  | .bidir => bidirQs l.dirW l.qs
+  | .bidir => bidirQs l.dirW l.dirWb l.dirQ l.qs
   | .folded => l.qs
   | _ => if l.cls = "QBatchNormalization" then bnQs (l.bn.getD defaultBN) l.qs else l.qs
 
